@@ -1,12 +1,14 @@
 import XvcRepo.Model
+import XvcRepo.Gen.CopyStores
 /-!
   Crash model for C07: the per-file procedures of `track`, `carry-in` and `recheck` decomposed into
   their file-system visible micro-steps (one system call or one atomic group each, in the order the
   code issues them — see the `strace` traces in the C07 evidence).  A kill between two system calls
   leaves the repository in the state reached by a *prefix* of the micro-step list.
 
-  The five stores of an entity are one record here: the non-atomic saving of the five store files is
-  known finding K3b1 and is outside this model.
+  In `mSaveRec` the five stores of an entity are one record; the non-atomic saving of the five store files is modelled
+  separately below (`Stores`, `runSaves`: a LIST of per-store saves, known findings K3b1a-g name the orders that are
+  not safe).  `copy_via_temp_file` is decomposed call by call at the end (`COp`, `copyViaTemp`).
 -/
 namespace Repo
 
@@ -141,5 +143,78 @@ def saveFileMicro (n : Nat) : List (List DirEntry → List DirEntry) :=
 
 /-- what `sorted_files` returns: hidden files are skipped -/
 def visible (d : List DirEntry) : List DirEntry := d.filter (fun x => !x.hidden)
+
+open Gen (StoreId)
+
+/-! ## the store saves of one command as a LIST of per-store saves -/
+
+/-- which entities each of the five stores (as loaded from its event files) has a component for -/
+structure Stores where
+  has : StoreId → Ent → Bool
+
+/-- `XvcStore::save` of one store after the command inserted the component of entity `e`: the event file is renamed
+    into place (atomic, `C07_store_file_atomic`); the other stores on disk are as they were -/
+def saveStore (e : Ent) (i : StoreId) (s : Stores) : Stores :=
+  ⟨fun j x => if j = i ∧ x = e then true else s.has j x⟩
+
+/-- the saves of a command for its new entity `e`, in the order `l`; a kill leaves the result of a prefix of `l` -/
+def runSaves (s : Stores) (e : Ent) (l : List StoreId) : Stores := l.foldl (fun s i => saveStore e i s) s
+
+/-- what every reader of the stores relies on (`xvc file list`, `recheck`, `carry-in`: `compare.rs` unwraps the digest
+    and the recheck method of every entity that has a path): a path is never on record without them -/
+def PathsComplete (s : Stores) : Prop :=
+  ∀ e, s.has .xvcPath e = true →
+    s.has .contentDigest e = true ∧ s.has .textOrBinary e = true ∧ s.has .recheckMethod e = true
+
+/-- decidable condition on an ORDER of saves: in every prefix that contains the path store, the digest, the
+    text-or-binary and the method store are there already -/
+def pathAfterContent (l : List StoreId) : Bool :=
+  (List.range (l.length + 1)).all fun k =>
+    !(l.take k).contains .xvcPath ||
+      ((l.take k).contains .contentDigest && (l.take k).contains .textOrBinary && (l.take k).contains .recheckMethod)
+
+/-! ## `copy_via_temp_file(source, temp_path, path)` (file/src/common/mod.rs) call by call -/
+
+/-- a regular file: bytes and the owner's write bit -/
+structure CFile where
+  b : Bytes
+  w : Bool
+  deriving DecidableEq, Repr
+
+/-- the two directory entries the procedure touches: the workspace path and the temporary name `.xvc/tmp/<pid>-<k>` -/
+structure CS where
+  path : Option CFile
+  tmp : Option CFile
+  deriving DecidableEq, Repr
+
+/-- the system calls of `copy_via_temp_file` (strace: `openat(O_CREAT|O_EXCL)`, `openat(O_TRUNC)` + `fchmod(0444)` - `fs::copy`
+    carries the read-only mode of the cache object over BEFORE the data -, one `copy_file_range`/`write` per chunk,
+    `chmod(temp, 0644)` = `set_writable`, `rename(temp, path)`); `chmodPathW` = `set_writable(path)` is what the
+    procedure must NOT need -/
+inductive COp where | createTmp | fchmodRo | append (c : Bytes) | chmodTmpW | rename | chmodPathW
+  deriving DecidableEq, Repr
+
+def COp.apply : COp → CS → CS
+  | .createTmp, x => { x with tmp := some ⟨[], true⟩ }
+  | .fchmodRo, x => { x with tmp := x.tmp.map fun f => { f with w := false } }
+  | .append c, x => { x with tmp := x.tmp.map fun f => { f with b := f.b ++ c } }
+  | .chmodTmpW, x => { x with tmp := x.tmp.map fun f => { f with w := true } }
+  | .rename, x => match x.tmp with
+      | some f => ⟨some f, none⟩
+      | none => x
+  | .chmodPathW, x => { x with path := x.path.map fun f => { f with w := true } }
+
+def runC (x : CS) (l : List COp) : CS := l.foldl (fun x o => o.apply x) x
+
+/-- the calls before the rename: everything happens to the temporary file -/
+def copyViaTempPre (cs : List Bytes) : List COp := [.createTmp, .fchmodRo] ++ cs.map .append ++ [.chmodTmpW]
+
+/-- `fs::copy(source, temp).and_then(set_writable(temp)).and_then(fs::rename(temp, path))` for a source delivered in
+    the chunks `cs` -/
+def copyViaTemp (cs : List Bytes) : List COp := copyViaTempPre cs ++ [.rename]
+
+/-- the forbidden order: rename first, `set_writable(path)` afterwards -/
+def copyViaTempRenameFirst (cs : List Bytes) : List COp :=
+  [.createTmp, .fchmodRo] ++ cs.map .append ++ [.rename, .chmodPathW]
 
 end Repo
